@@ -7,7 +7,7 @@
    DebugMapLines.v, DebugMapWitness.v. *)
 From Coq Require Import ZArith List Bool.
 From QV Require Import DebugMap DebugMapProofs DebugMapFinalize DebugMapCover DebugMapLines
-  DebugMapWitness.
+  DebugMapWitness DebugMapAttr.
 Import ListNotations.
 Open Scope Z_scope.
 
@@ -130,6 +130,20 @@ Theorem C11_body_covered_refuted :
     bs <= addr < be /\ find_stmt stmts addr = FNone.
 Proof. exact body_covered_refuted_lemma. Qed.
 Print Assumptions C11_body_covered_refuted.
+
+(* attribution, the part that holds: if a non-block statement n was the
+   innermost open node when the instruction at addr was emitted ([open_at] =
+   the collector's stack at that instruction), then n has a record containing
+   addr in the final table, and the lookup answers with a record that
+   contains addr and is at most as large as n's.
+   _partial: it does not say the answer IS n's record - see the refutation. *)
+Theorem C11_attribution_stmt_partial : forall l, wf_markers l ->
+  forall routines stmts others sz, debug_map l = DOk routines stmts others sz ->
+  forall addr n rest, open_at l 0 [] addr = Some (n :: rest) -> nk n = KStmt ->
+  exists s e, In (mkRec (nid n) s e) stmts /\ s <= addr < e /\
+  exists r, find_stmt stmts addr = FFound r /\ r_start r <= addr < r_end r /\ rsize r <= e - s.
+Proof. exact attribution_stmt_lemma. Qed.
+Print Assumptions C11_attribution_stmt_partial.
 
 (* attribution: an instruction emitted while statement n was the innermost
    open node should be looked up as n.  Refuted on the faithful model: the
